@@ -127,6 +127,10 @@ def generate(rng, tier):
     for k, p in enumerate(fixed):
         for f in (R.FLAVOURS if tier == "thorough" else [R.FLAVOURS[k % 7], R.FLAVOURS[(k + 3) % 7]]):
             cases.append({"prog": p, "flavour": f})
+    # force_failure set in setUp / in a cleanup, setUp ending in every behaviour (fix 889980a)
+    for k, (p, _) in enumerate(R.setup_force_programs()):
+        for f in (R.FLAVOURS if tier == "thorough" else [R.FLAVOURS[k % 7]]):
+            cases.append({"prog": p, "flavour": f})
     # bounded-exhaustive core
     k = 0
     for p, combo in R.core_programs(max_cleanups=0):
